@@ -57,3 +57,118 @@ Proof.
   numR. repeat match goal with |- context [Rltb ?a ?b] =>
     let H := fresh in destruct (Rltb a b) eqn:H; [apply Rltb_true in H|apply Rltb_false in H]; try lra end; reflexivity.
 Qed.
+
+(** *** The models are the source (translator tie).
+    gen/Gen_durations.v is re-translated from /repo's eqsig/im.py at the start of every run of this check
+    (translator/py2coq_durations.py: Python [ast], the whitelist grammar of translator/py2coq_numpy.py extended by the
+    element-wise strict/non-strict comparisons, [&], [np.where(..)[0]], [v[0]] / [v[-1]] as PARTIAL reads (IndexError on an
+    empty array), [np.arange(asig.npts) * asig.dt], fancy indexing by the np.where result, the [se] switch,
+    [if im is None], and [try .. except IndexError]; fail-closed).  A call returns a [pyval] (lib/PyVal.v):
+    [PyScalar x] = [return x], [PyPair x y] = [return x, y], [PyNonePair] = [return None, None], [PyIndexError] = an
+    IndexError that nothing caught.
+    PROVED, for every [NumOps] instance (the Q run of the correspondence and the R theorems above alike) and for ALL inputs
+    (empty records and the no-qualifying-sample case included):
+    - the translation of calc_sig_dur_vals IS [sig_dur_se] on [cumsum (vsq motion)]: se=True returns the pair, se=False
+      end - start, and it raises IndexError exactly where the model is [None];
+    - the translation of calc_sig_dur IS [sig_dur_se] on the measure: for im=None the (generated, inlined) Arias series
+      [arias (np.pi / (2 * 9.81)) dt values], np.pi an input; otherwise the series the user's callable returned, which is an
+      input [Some v] of the generated function;
+    - the translation of calc_brac_dur IS [brac_dur_se] / [brac_dur], the caught IndexError giving (None, None) / 0;
+    - the deprecated alias calc_significant_duration is calc_sig_dur_vals with se=False;
+    - the defaults of the signatures (start=0.05, end=0.95, se=False, im=None);
+    - composed with the theorems above, at R: what the SOURCE returns is the (first, last) qualifying sample times dt
+      ([C10_source_*_def]).
+    NOT proved (still only decided by the correspondence): that NumPy's cumsum, **2, abs, >, <, &, where, arange and
+    fancy indexing are the list primitives of lib/NpList.v / lib/PyVal.v (the translator's reading of each whitelisted
+    call), that AccSignal.npts is len(values) and .values/.dt are the stored record and step (object layer), what a
+    user-supplied callable computes, binary64 rounding of the threshold products, and the DeprecationWarning side effect. *)
+From EQ Require Import lib.PyVal gen.Gen_quadrature gen.Gen_durations proofs.P_gen_durations.
+
+Theorem C10_sig_dur_vals_is_source : forall (T : Type) (ops : NumOps T) (dt lo hi : T) (m : list T),
+  gen_sig_dur_vals true dt lo hi m =
+    match sig_dur_se dt lo hi (cumsum (vsq m)) with Some (s, e) => PyPair s e | None => PyIndexError end /\
+  gen_sig_dur_vals false dt lo hi m =
+    match sig_dur_se dt lo hi (cumsum (vsq m)) with Some (s, e) => PyScalar (nsub e s) | None => PyIndexError end.
+Proof.
+  intros T ops dt lo hi m. rewrite !P_gen_durations.gen_sig_dur_vals_eq.
+  destruct (sig_dur_se dt lo hi (cumsum (vsq m))) as [[s e]|]; split; reflexivity.
+Qed.
+Theorem C10_sig_dur_is_source : forall (T : Type) (ops : NumOps T) (pi dt lo hi : T) (im : option (list T)) (a : list T),
+  let cum := match im with
+             | None => arias (ndiv pi (nmul (nofZ 2) (ndiv (nofZ 981) (nofZ 100)))) dt a
+             | Some v => v
+             end in
+  gen_sig_dur pi true dt lo hi im a =
+    match sig_dur_se dt lo hi cum with Some (s, e) => PyPair s e | None => PyIndexError end /\
+  gen_sig_dur pi false dt lo hi im a =
+    match sig_dur_se dt lo hi cum with Some (s, e) => PyScalar (nsub e s) | None => PyIndexError end.
+Proof.
+  intros T ops pi dt lo hi im a. cbv zeta. rewrite !P_gen_durations.gen_sig_dur_eq.
+  change (P_gen_durations.sig_dur_measure pi dt im a)
+    with (match im with None => arias (ndiv pi (nmul (nofZ 2) (ndiv (nofZ 981) (nofZ 100)))) dt a | Some v => v end).
+  destruct (sig_dur_se dt lo hi _) as [[s e]|]; split; reflexivity.
+Qed.
+(** the series used for im=None is the generated calc_arias_intensity of C09 (C09_arias_is_source) *)
+Theorem C10_sig_dur_default_measure_is_source : forall (T : Type) (ops : NumOps T) (pi dt : T) (a : list T),
+  arias (ndiv pi (nmul (nofZ 2) (ndiv (nofZ 981) (nofZ 100)))) dt a = gen_arias pi dt a.
+Proof. intros. reflexivity. Qed.
+Theorem C10_sig_dur_is_source_R : forall (dt lo hi : R) (a : list R),
+  gen_sig_dur PI true dt lo hi None a =
+    match sig_dur_se dt lo hi (arias (PI / (2 * 9.81)) dt a) with Some (s, e) => PyPair s e | None => PyIndexError end.
+Proof. intros dt lo hi a. exact (proj1 (C10_sig_dur_is_source R _ PI dt lo hi None a)). Qed.
+Theorem C10_brac_dur_is_source : forall (T : Type) (ops : NumOps T) (dt thr : T) (a : list T),
+  gen_brac_dur true dt thr a = match brac_dur_se dt thr a with Some (s, e) => PyPair s e | None => PyNonePair end /\
+  gen_brac_dur false dt thr a = PyScalar (brac_dur dt thr a).
+Proof.
+  intros T ops dt thr a. split; [|exact (P_gen_durations.gen_brac_dur_scalar dt thr a)].
+  rewrite P_gen_durations.gen_brac_dur_eq. destruct (brac_dur_se dt thr a) as [[s e]|]; reflexivity.
+Qed.
+Theorem C10_significant_duration_alias_is_source : forall (T : Type) (ops : NumOps T) (dt lo hi : T) (m : list T),
+  gen_significant_duration dt lo hi m = gen_sig_dur_vals false dt lo hi m.
+Proof. exact (@P_gen_durations.gen_significant_duration_eq). Qed.
+Theorem C10_duration_defaults_are_source :
+  gen_sig_dur_vals_default_se = false /\ gen_sig_dur_default_se = false /\ gen_brac_dur_default_se = false /\
+  gen_sig_dur_default_im_is_none = true /\
+  @gen_sig_dur_vals_default_start R _ = 0.05 /\ @gen_sig_dur_vals_default_end R _ = 0.95 /\
+  @gen_sig_dur_default_start R _ = 0.05 /\ @gen_sig_dur_default_end R _ = 0.95 /\
+  @gen_significant_duration_default_start R _ = 0.05 /\ @gen_significant_duration_default_end R _ = 0.95.
+Proof.
+  destruct P_gen_durations.gen_dur_default_flags as (F1 & F2 & F3 & F4).
+  destruct P_gen_durations.gen_dur_default_fractions_R as (D1 & D2 & D3 & D4 & D5 & D6). repeat split; assumption.
+Qed.
+
+(** what the source returns, at R, through C10_sig_def / C10_brac_def: the (first, last) qualifying sample, times dt *)
+Theorem C10_source_sig_dur_vals_def : forall dt lo hi (m : list R),
+  let cum := cumsum (vsq m) in
+  match gen_sig_dur_vals true dt lo hi m with
+  | PyPair s e => exists i j, first_last 0 (between lo hi (last0 cum)) cum i j /\ s = idx_time dt i /\ e = idx_time dt j
+  | PyIndexError => forall k, (k < length cum)%nat -> between lo hi (last0 cum) (nth k cum 0) = false
+  | _ => False
+  end.
+Proof. exact P_gen_durations.source_sig_dur_vals_def. Qed.
+Theorem C10_source_sig_dur_def : forall pi dt lo hi (im : option (list R)) (a : list R),
+  let cum := match im with None => arias (pi / (2 * 9.81)) dt a | Some v => v end in
+  match gen_sig_dur pi true dt lo hi im a with
+  | PyPair s e => exists i j, first_last 0 (between lo hi (last0 cum)) cum i j /\ s = idx_time dt i /\ e = idx_time dt j
+  | PyIndexError => forall k, (k < length cum)%nat -> between lo hi (last0 cum) (nth k cum 0) = false
+  | _ => False
+  end.
+Proof. exact P_gen_durations.source_sig_dur_def. Qed.
+Theorem C10_source_sig_dur_vals_diff : forall dt lo hi (m : list R) s e,
+  gen_sig_dur_vals true dt lo hi m = PyPair s e -> gen_sig_dur_vals false dt lo hi m = PyScalar (e - s).
+Proof. exact P_gen_durations.source_sig_dur_vals_diff. Qed.
+Theorem C10_source_brac_dur_def : forall dt thr (a : list R),
+  match gen_brac_dur true dt thr a with
+  | PyPair s e => exists i j, first_last 0 (exceeds thr) a i j /\ s = idx_time dt i /\ e = idx_time dt j
+                  /\ gen_brac_dur false dt thr a = PyScalar (e - s)
+  | PyNonePair => (forall k, (k < length a)%nat -> Rabs (nth k a 0) <= thr) /\ gen_brac_dur false dt thr a = PyScalar 0
+  | _ => False
+  end.
+Proof. exact P_gen_durations.source_brac_dur_def. Qed.
+
+(** the translated functions return real results on a concrete record (non-vacuity of the source theorems) *)
+Example C10_source_nonvacuous :
+  gen_brac_dur true (1/2) 2 [0; 3; -4; 1; -5; 0] = PyPair (idx_time (1/2) 1) (idx_time (1/2) 4) /\
+  gen_brac_dur true (1/2) 9 [0; 3; -4; 1; -5; 0] = PyNonePair /\
+  gen_sig_dur_vals true (1/2) (1/4) (3/4) [1; 1; 1; 1; 1; 1; 1; 1] = PyPair (idx_time (1/2) 2) (idx_time (1/2) 4).
+Proof. exact P_gen_durations.source_nonvacuous. Qed.
